@@ -46,7 +46,8 @@ PLAN = {
 }
 
 # native go test -fuzz stage (seconds) of the thorough tier
-NATIVE_FUZZ = {"C14": 120, "C05": 90}
+NATIVE_FUZZ = {f"C{i:02d}": 60 for i in range(1, 21)}
+NATIVE_FUZZ.update({"C14": 120, "C05": 90})
 
 MASK = (1 << 64) - 1
 
